@@ -146,8 +146,25 @@ class Poly:
         return " + ".join(parts).replace("+ -", "- ")
 
 
+def _canon_floor_mod(p: Poly) -> Poly:
+    """n - n % b  ->  (n // b) * b   (the same integer; one spelling so that both compare equal): a monomial whose only
+    non-constant factor is the atom 'n % b' with coefficient c is rewritten when the polynomial also has the monomials of c * n."""
+    for k, v in list(p.terms.items()):
+        if len(k) == 1 and k[0][1] == 1 and isinstance(k[0][0], tuple) and k[0][0][:2] == ("binop", "%"):
+            _, _, n, b = k[0][0]
+            pn = term_to_poly(n).scale(-v)          # the polynomial must contain  -v * n
+            if pn.terms and all(p.terms.get(m) is not None for m in pn.terms):
+                rest = p - pn - Poly({k: v})
+                fd = Poly.atom(("binop", "//", n, b)) * term_to_poly(b)
+                # only when -v * n is really there (its monomials may carry other contributions: keep those in rest)
+                return _canon_floor_mod(rest + fd.scale(-v))
+    return p
+
+
 def poly_term(p: Poly) -> Term:
     """Canonical term of a polynomial (an atom itself if it is just one atom)."""
+    if any(len(k) == 1 and isinstance(k[0][0], tuple) and k[0][0][:2] == ("binop", "%") for k in p.terms):
+        p = _canon_floor_mod(p)
     if len(p.terms) == 1:
         (k, v), = p.terms.items()
         if v == 1 and len(k) == 1 and k[0][1] == 1:
